@@ -21,12 +21,15 @@ print('V1 got', run(lambda a: not_(a.tags <= frozenset('ab')), S), 'expected', [
 N = [Item(0), Item(float('nan')), Item(2)]
 print('V2 got', run(lambda a: not_(a.x < 1), N), 'expected', [i.x for i in N if not (i.x < 1)])
 # V3: not_(for_all(...)) is a no-op
-with symbolic_mode():
-    a = let(Item, domain=ITEMS, name='a'); b = let(Item, domain=ITEMS, name='b')
-    pos = [i.x for i in an(entity(a, for_all(b, a.x <= b.x))).evaluate()]
-    a = let(Item, domain=ITEMS, name='a'); b = let(Item, domain=ITEMS, name='b')
-    neg = [i.x for i in an(entity(a, not_(for_all(b, a.x <= b.x)))).evaluate()]
-print('V3 for_all', pos, 'not_(for_all)', neg, 'expected', [i.x for i in ITEMS if not all(i.x <= j.x for j in ITEMS)])
+try:
+    with symbolic_mode():
+        a = let(Item, domain=ITEMS, name='a'); b = let(Item, domain=ITEMS, name='b')
+        pos = [i.x for i in an(entity(a, for_all(b, a.x <= b.x))).evaluate()]
+        a = let(Item, domain=ITEMS, name='a'); b = let(Item, domain=ITEMS, name='b')
+        neg = [i.x for i in an(entity(a, not_(for_all(b, a.x <= b.x)))).evaluate()]
+    print('V3 for_all', pos, 'not_(for_all)', neg, 'expected', [i.x for i in ITEMS if not all(i.x <= j.x for j in ITEMS)])
+except NotImplementedError as e:
+    print("V3 refused:", e)
 # V4: not_ negates its operand in place, so a condition that is used twice is negated in both places
 def v4(a):
     c = a.x < 2
